@@ -96,11 +96,13 @@ pub struct Widths {
 	d: u64,
 	e: i8,
 	f: i16,
+	g: i128,
+	h: u128,
 }
 impl Fam for Widths {
 	const NAME: &'static str = "integer widths mapped to int/long";
 	fn schema() -> S {
-		S::record("Widths", vec![("a", S::Int), ("b", S::Int), ("c", S::Long), ("d", S::Long), ("e", S::Int), ("f", S::Int)])
+		S::record("Widths", vec![("a", S::Int), ("b", S::Int), ("c", S::Long), ("d", S::Long), ("e", S::Int), ("f", S::Int), ("g", S::Long), ("h", S::Long)])
 	}
 	fn values() -> Vec<Self> {
 		let mut out = Vec::new();
@@ -108,7 +110,7 @@ impl Fam for Widths {
 			for &c in &[0u32, u32::MAX] {
 				for &d in &[0u64, 1 << 40, i64::MAX as u64] {
 					for &e in &[i8::MIN, -1, i8::MAX] {
-						out.push(Widths { a, b: if a == 0 { u16::MAX } else { 300 }, c, d, e, f: if e < 0 { i16::MIN } else { i16::MAX } });
+						out.push(Widths { a, b: if a == 0 { u16::MAX } else { 300 }, c, d, e, f: if e < 0 { i16::MIN } else { i16::MAX }, g: if e < 0 { i64::MIN as i128 } else { d as i128 }, h: d as u128 });
 					}
 				}
 			}
@@ -116,7 +118,7 @@ impl Fam for Widths {
 		out
 	}
 	fn to_r(&self) -> R {
-		R::Record(vec![R::Int(self.a as i32), R::Int(self.b as i32), R::Long(self.c as i64), R::Long(self.d as i64), R::Int(self.e as i32), R::Int(self.f as i32)])
+		R::Record(vec![R::Int(self.a as i32), R::Int(self.b as i32), R::Long(self.c as i64), R::Long(self.d as i64), R::Int(self.e as i32), R::Int(self.f as i32), R::Long(self.g as i64), R::Long(self.h as i64)])
 	}
 }
 
@@ -566,6 +568,10 @@ pub struct OptUnions {
 	d: Option<LongOrBytesOrFx>,
 	/// an enum branch and a record branch
 	e: Option<SymOrInner>,
+	/// `Option` of a plain type over a union that has more branches than `null` and that type
+	f: Option<i64>,
+	g: Option<Inner>,
+	h: Option<String>,
 	z: i32,
 }
 #[derive(Serialize, Deserialize, Debug, Clone)]
@@ -596,6 +602,9 @@ impl Fam for OptUnions {
 				("c", S::Union(vec![S::Int, S::Null, S::String])),
 				("d", S::Union(vec![S::Long, S::Bytes])),
 				("e", S::Union(vec![S::enum_("ns.Sym", &["A", "B", "C"]), inner_schema("ns.InnerU")])),
+				("f", S::Union(vec![S::Long, S::Null, S::String])),
+				("g", S::Union(vec![S::Null, S::Boolean, inner_schema("ns.InnerV")])),
+				("h", S::Union(vec![S::Int, S::String, S::Null])),
 				("z", S::Int),
 			],
 		)
@@ -609,7 +618,12 @@ impl Fam for OptUnions {
 		for (i, a) in ios.iter().enumerate() {
 			for (j, b) in ios.iter().enumerate() {
 				let c = if (i + j) % 3 == 0 { None } else { Some(ios[(i + 2 * j) % ios.len()].clone()) };
-				out.push(OptUnions { a: Some(a.clone()), b: Some(b.clone()), c, d: Some(ds[(i + j) % ds.len()].clone()), e: Some(es[(i * 3 + j) % es.len()].clone()), z: -65 });
+				out.push(OptUnions { a: Some(a.clone()), b: Some(b.clone()), c, d: Some(ds[(i + j) % ds.len()].clone()), e: Some(es[(i * 3 + j) % es.len()].clone()),
+					f: if i % 3 == 0 { None } else { Some(I64S[(i + j) % I64S.len()]) },
+					g: if j % 3 == 0 { None } else { Some(Inner { x: i as i32 - 3, y: if j % 2 == 0 { None } else { Some(i % 2 == 0) } }) },
+					h: if (i + j) % 4 == 0 { None } else { Some(strs()[(i + j) % strs().len()].clone()) },
+					z: -65,
+				});
 			}
 		}
 		out
@@ -633,6 +647,18 @@ impl Fam for OptUnions {
 			match self.e.as_ref().unwrap() {
 				SymOrInner::Sym(s) => R::Union(0, Box::new(sym_r(s))),
 				SymOrInner::Inner(i) => R::Union(1, Box::new(inner_r(i))),
+			},
+			match &self.f {
+				None => R::Union(1, Box::new(R::Null)),
+				Some(v) => R::Union(0, Box::new(R::Long(*v))),
+			},
+			match &self.g {
+				None => R::Union(0, Box::new(R::Null)),
+				Some(v) => R::Union(2, Box::new(inner_r(v))),
+			},
+			match &self.h {
+				None => R::Union(2, Box::new(R::Null)),
+				Some(v) => R::Union(1, Box::new(rstr(v))),
 			},
 			R::Int(self.z),
 		])
@@ -927,6 +953,99 @@ pub fn run_family<T: Fam + DeserializeOwned>(cover: &mut Cover, out: &mut Vec<Vi
 	}
 }
 
+/// Fixed-size sequence targets against arrays of another length: the decoder must not make up a
+/// value (surplus elements silently dropped, or what follows the array read as if it were the
+/// next field). Every array length 0..=4 in every split into blocks, for targets of 2 elements.
+pub fn run_length_mismatch(cover: &mut Cover, out: &mut Vec<Violation>) {
+	#[derive(Deserialize, Debug)]
+	#[allow(dead_code)]
+	struct TupleTarget {
+		a: (i32, i32),
+		b: i32,
+	}
+	#[derive(Deserialize, Debug)]
+	#[allow(dead_code)]
+	struct ArrayTarget {
+		a: [i32; 2],
+		b: i32,
+	}
+	#[derive(Deserialize, Debug)]
+	#[allow(dead_code)]
+	struct PairTarget {
+		a: Pair,
+		b: i32,
+	}
+	const FAM: &str = "fixed-size sequence targets over arrays of another length";
+	let rs = S::record("Mismatch", vec![("a", S::array(S::Int)), ("b", S::Int)]);
+	let text = gen::schema_text(&rs);
+	let schema = gen::to_crate_schema(&rs).expect("mismatch schema");
+	let zz = |v: i64| -> Vec<u8> {
+		let mut z = ((v << 1) ^ (v >> 63)) as u64;
+		let mut o = Vec::new();
+		loop {
+			let b = (z & 0x7f) as u8;
+			z >>= 7;
+			if z == 0 {
+				o.push(b);
+				return o;
+			}
+			o.push(b | 0x80);
+		}
+	};
+	let mut idx = 0usize;
+	for n in 0usize..=4 {
+		// every composition of n items into blocks
+		for cuts in 0u32..(1 << n.saturating_sub(1)) {
+			let mut bytes = Vec::new();
+			let mut start = 0;
+			for i in 0..n {
+				let last_of_block = i + 1 == n || cuts & (1 << i) != 0;
+				if last_of_block {
+					bytes.extend(zz((i + 1 - start) as i64));
+					for k in start..=i {
+						bytes.extend(zz(10 + k as i64));
+					}
+					start = i + 1;
+				}
+			}
+			bytes.extend(zz(0));
+			bytes.extend(zz(7));
+			bytes.extend_from_slice(&[0x2a, 0x2a]);
+			macro_rules! target {
+				($t:ty, $name:literal) => {{
+					for path in 0..3usize {
+						cover.evaluations += 1;
+						cover.impl_runs += 1;
+						let r = match path {
+							0 => guarded(|| serde_avro_fast::from_datum_slice::<$t>(&bytes, &schema).map(|v| format!("{v:?}")).map_err(|e| e.to_string())),
+							p => guarded(|| serde_avro_fast::from_datum_reader::<_, $t>(ChunkedBufRead::uniform(&bytes, p - 1), &schema).map(|v| format!("{v:?}")).map_err(|e| e.to_string())),
+						};
+						let what = |got: String| format!("target {} path {}: array of {n} items in blocks (cut mask {cuts:#b}) followed by b = 7, bytes [{}]: {got}", $name, ["slice", "reader (one chunk)", "reader (1-byte chunks)"][path], hex(&bytes));
+						match r {
+							Out::Ok(v) if n == 2 => {
+								if !v.contains("10, 11") || !v.contains("b: 7") {
+									violation(out, FAM, idx, &text, "typed-de-differs", what(format!("decoded to {v}")));
+								}
+								cover.nontrivial.insert(hash64(&("mismatch-ok", n, cuts)));
+							}
+							Out::Ok(v) => violation(out, FAM, idx, &text, "typed-length-mismatch-accepted", what(format!("a 2-element target was filled from an array of {n}: decoded to {v}"))),
+							Out::Err(e) if n == 2 => violation(out, FAM, idx, &text, "typed-de-err", what(format!("failed: {e}"))),
+							Out::Err(_) => {
+								cover.nontrivial.insert(hash64(&("mismatch-err", n, cuts)));
+							}
+							Out::Panic(e) => violation(out, FAM, idx, &text, "typed-de-panic", what(format!("panicked: {e}"))),
+						}
+					}
+				}};
+			}
+			target!(TupleTarget, "(i32, i32)");
+			target!(ArrayTarget, "[i32; 2]");
+			target!(PairTarget, "tuple struct Pair(i32, i32)");
+			idx += 1;
+		}
+	}
+}
+
 /// Borrowed `&str` / `&[u8]` fields: decoded from a slice they must point into the input.
 pub fn run_borrowed(cover: &mut Cover, out: &mut Vec<Violation>) {
 	let rs = S::record("Borrowed", vec![("s", S::String), ("b", S::Bytes), ("n", S::Long), ("o", S::Union(vec![S::Null, S::String]))]);
@@ -996,6 +1115,7 @@ pub fn run_all(cover: &mut Cover, out: &mut Vec<Violation>) {
 	run_family::<IntsAsDecimals>(cover, out, None);
 	run_family::<EnumsOverPlainNodes>(cover, out, None);
 	run_borrowed(cover, out);
+	run_length_mismatch(cover, out);
 	cover.count("typed_families", 17);
 }
 
@@ -1012,5 +1132,6 @@ pub fn replay(family: &str, idx: usize) -> Vec<Violation> {
 	}
 	try_fam!(Prim, Floats, Widths, Opts, UnionNewtype, UnionStructVariant, WithEnum, Colls, List, Tree, Logicals, WithNewtypes, Tuples, OptUnions, IntsAsDecimals, EnumsOverPlainNodes);
 	run_borrowed(&mut cover, &mut out);
+	run_length_mismatch(&mut cover, &mut out);
 	out
 }
